@@ -38,10 +38,21 @@ StopStep ==
     /\ LET P == Pop(S, 1)
        IN IF FinishedQ(P)
           THEN S' = Collate(P) /\ run' = "returned"
-          ELSE S' = [P EXCEPT !.queue = QInsert(@, [t |-> P.now + K, p |-> URGENT, pid |-> StopPid])]
-               /\ run' = run
+          ELSE \/ S' = [P EXCEPT !.queue = QInsert(@, [t |-> P.now + K, p |-> URGENT, pid |-> StopPid])]
+                  /\ run' = run
+               \/ (* start(k) / resume(u) return here: the caller sees a   *)
+                  (* paused simulation; both collate before returning     *)
+                  /\ cfg.seg
+                  /\ S' = Collate(P) /\ run' = "paused"
     /\ HlogNext
     /\ UNCHANGED cfg
+
+(* Simulation.resume(until): env.run(until) *)
+ResumeCall ==
+    /\ run = "paused"
+    /\ S' = [S EXCEPT !.queue = QInsert(@, [t |-> S.now + K, p |-> URGENT, pid |-> StopPid])]
+    /\ run' = "running"
+    /\ UNCHANGED <<cfg, hlog>>
 
 Surface ==
     /\ run = "running" /\ S.queue # <<>> /\ QHead(S).pid[1] = "CRASH"
@@ -53,7 +64,7 @@ Next ==
     \/ Resume("Mon") \/ Resume("Tel") \/ Resume("Clu") \/ Resume("Sch") \/ Resume("Buf")
     \/ Resume("AI") \/ Resume("PI") \/ Resume("ST") \/ Resume("TP") \/ Resume("WK")
     \/ Resume("AT") \/ Resume("H2C") \/ Resume("C2H")
-    \/ StopStep \/ Surface
+    \/ StopStep \/ ResumeCall \/ Surface
 
 Spec == Init /\ [][Next]_vars
 FairSpec == Spec /\ WF_vars(Next)
